@@ -11,6 +11,35 @@ func collect(repo string, f *facts) {
 	timeFacts(f)
 	paramFacts(f)
 	parseFacts(f)
+	frameFacts(f)
+}
+
+// ---- C08: input/tcplistener ----
+func frameFacts(f *facts) {
+	f.note["frame_buffer_factor"] = "multilinereader.go newMultiLineReader: K of `util.MaxInt(minBufferSize, softRecordLimit*K)`"
+	f.nat["frame_buffer_factor"] = nil
+	if fd := fn("input/tcplistener/multilinereader.go", "newMultiLineReader", ""); fd != nil {
+		inspect(fd.Body, func(n ast.Node) bool {
+			if c, ok := n.(*ast.CallExpr); ok && src(c.Fun) == "util.MaxInt" && len(c.Args) == 2 {
+				if be, ok := c.Args[1].(*ast.BinaryExpr); ok && be.Op == token.MUL && src(be.X) == "softRecordLimit" {
+					if v, ok := evalInt("", be.Y, 0); ok {
+						f.nat["frame_buffer_factor"] = ip(v)
+					}
+				}
+			}
+			return true
+		})
+	}
+	f.note["frame_soft_is_max_record"] = "tcplinelistener.go runConnection: newMultiLineReader(…, defs.ListenerLineBufferSize, defs.InputLogMaxRecordBytes, …)"
+	f.bool["frame_soft_is_max_record"] = nil
+	if fd := fn("input/tcplistener/tcplinelistener.go", "runConnection", "tcpLineListener"); fd != nil {
+		inspect(fd.Body, func(n ast.Node) bool {
+			if c, ok := n.(*ast.CallExpr); ok && src(c.Fun) == "newMultiLineReader" && len(c.Args) == 5 {
+				f.bool["frame_soft_is_max_record"] = bp(src(c.Args[2]) == "defs.ListenerLineBufferSize" && src(c.Args[3]) == "defs.InputLogMaxRecordBytes")
+			}
+			return true
+		})
+	}
 }
 
 // strList returns the string literals of a package-level `[]string{...}` variable.
